@@ -14,6 +14,8 @@ structure RemoveSubtreeOk (a : Arena) (g : Shape) (i : Nat) (a' : Arena) (l : Li
   mem : ∀ u, u ∈ l ↔ Reach (g.detach i).par u i
   mono : StampMono a a'
   gone : ∀ u, u ∈ l → (a.idAt u).stamp < 32767 → Gone a' (a.idAt u)
+  live : ∀ j, Live a' j ↔ (Live a j ∧ j ∉ l)
+  payload : ∀ j s v, j ∉ l → a.slot j = some s → s.data = .data v → ∃ s', a'.slot j = some s' ∧ s'.data = .data v
 
 theorem Rep.removeSubtree {a : Arena} {g : Shape} (r : Rep a g) (i : Nat) (hi : Live a i) :
     ∃ a' l, Arena.removeSubtree a (a.idAt i) = .done a' () ∧ RemoveSubtreeOk a g i a' l := by
@@ -61,7 +63,33 @@ theorem Rep.removeSubtree {a : Arena} {g : Shape} (r : Rep a g) (i : Nat) (hi : 
       split at e1 <;> omega
     · obtain ⟨s', hs', _, hst⟩ := m.slot_other hj hs
       exact ⟨s', hs', by unfold AbsLe; omega⟩
-  refine ⟨b', l, hcomp, rep', hnd, hmem, hM.stampMono.trans mono1, ?_⟩
+  refine ⟨b', l, hcomp, rep', hnd, hmem, hM.stampMono.trans mono1, ?_, ?_, ?_⟩
+  rotate_left
+  · intro j
+    rw [← hM.live j]
+    constructor
+    · rintro ⟨s', hs', h0'⟩
+      have hp := m.ptrs j
+      rw [hs'] at hp
+      cases hs1 : a1.slot j with
+      | none => rw [hs1] at hp; simp at hp
+      | some s1 =>
+        by_cases hj : j ∈ l
+        · exfalso
+          obtain ⟨s0, hs0, h00⟩ := hlive j hj
+          rw [hs1] at hs0; cases hs0
+          obtain ⟨s2, nf, hs2, e1, _⟩ := m.self j hj s1 hs1
+          rw [hs'] at hs2; cases hs2
+          split at e1 <;> omega
+        · obtain ⟨s2, hs2, _, hst⟩ := m.slot_other hj hs1
+          rw [hs'] at hs2; cases hs2
+          exact ⟨⟨s1, hs1, by omega⟩, hj⟩
+    · rintro ⟨⟨s1, hs1, h0⟩, hj⟩
+      obtain ⟨s2, hs2, _, hst⟩ := m.slot_other hj hs1
+      exact ⟨s2, hs2, by omega⟩
+  · intro j s v hj hs hd
+    obtain ⟨s1, hs1, _, hd1⟩ := hM.slot_some hs
+    exact m.payload j s1 v hj hs1 (by rw [hd1]; exact hd)
   intro u hu hlt
   obtain ⟨s, hs, h0⟩ := hlive u hu
   obtain ⟨s', nf, hs', e1, _⟩ := m.self u hu s hs
